@@ -31,11 +31,10 @@
 EXTENDS Integers, Sequences, TLC, Json
 
 CONSTANTS K,        \* maximal number of components that differ from the base tuple
-          BaseName, \* which base tuple: "url" | "rel" | "unix"
-          What      \* "parse" or "set": which records Emit prints
+          Bases     \* set of base tuples to start from: subset of {"url", "rel", "unix"}
 
-VARIABLES t, d
-vars == <<t, d>>
+VARIABLES t, d, bn      \* tuple, number of changed components, name of the base tuple
+vars == <<t, d, bn>>
 
 -----------------------------------------------------------------------------
 Null == <<-1>>                       \* an absent component (NULL pointer)
@@ -280,6 +279,10 @@ Compose(tt) ==
   \o (IF Tok(tt, 7).k = "none" THEN <<>> ELSE <<HASH>> \o Tok(tt, 7).b)
 
 B == Compose(t)
+BaseOf(n) == CASE n = "url"  -> <<1, 1, 1, 1, 1, 1, 1>>      \* http://h.ex/a/b
+               [] n = "rel"  -> <<2, 1, 2, 1, 5, 1, 1>>      \* a/b
+               [] n = "unix" -> <<1, 1, 15, 1, 1, 1, 1>>     \* http://unix:r.s:/a/b
+Base == BaseOf(bn)
 FlagSets == 0..7                         \* bit 0 nc, bit 1 sb, bit 2 ux
 NC(fl) == fl % 2 = 1
 SBf(fl) == (fl \div 2) % 2 = 1
@@ -289,22 +292,20 @@ ParseF(str, fl) == Parse(str, NC(fl), SBf(fl), UX(fl))
 PubFlags(fl) == (IF NC(fl) THEN 1 ELSE 0) + (IF SBf(fl) THEN 4 ELSE 0) + (IF UX(fl) THEN 8 ELSE 0)
 
 -----------------------------------------------------------------------------
-Base == CASE BaseName = "url"  -> <<1, 1, 1, 1, 1, 1, 1>>      \* http://h.ex/a/b
-          [] BaseName = "rel"  -> <<2, 1, 2, 1, 5, 1, 1>>      \* a/b
-          [] BaseName = "unix" -> <<1, 1, 15, 1, 1, 1, 1>>     \* http://unix:r.s:/a/b
-Init == t = Base /\ d = 0
+Init == \E n \in Bases : bn = n /\ t = BaseOf(n) /\ d = 0
 Change == /\ d < K
           /\ \E p \in 1..7 : /\ t[p] = Base[p]
                              /\ \E v \in 1..Len(Tables[p]) : v # Base[p] /\ t' = [t EXCEPT ![p] = v]
-          /\ d' = d + 1
+          /\ d' = d + 1 /\ bn' = bn
 Next == Change
 Spec == Init /\ [][Next]_vars
 
 -----------------------------------------------------------------------------
 (* laws of the reference *)
-RoundTrip ==
+PR == [fl \in FlagSets |-> ParseF(B, fl)]
+RoundTripP(pr) ==
   \A fl \in FlagSets :
-    LET r == ParseF(B, fl)
+    LET r == pr[fl]
     IN IsRec(r) => LET r2 == ParseF(Join(r), fl) IN IsRec(r2) /\ Pub(r2) = Pub(r)
 
 (* a tuple built from valid tokens in a legal combination parses (flags 0) to its own components *)
@@ -330,8 +331,9 @@ OwnComponents(tt) ==
    pa |-> Tok(tt, 5).b,
    q |-> IF Tok(tt, 6).k = "none" THEN Null ELSE Tok(tt, 6).b,
    f |-> IF Tok(tt, 7).k = "none" THEN Null ELSE Tok(tt, 7).b]
-GrammarSound ==
-  LET r == ParseF(B, 0)
+RoundTrip == RoundTripP(PR)
+GrammarSoundP(pr) ==
+  LET r == pr[0]
   IN ValidTok(t) => (IsRec(r) /\ Pub(r) = OwnComponents(t))
 
 -----------------------------------------------------------------------------
@@ -362,13 +364,14 @@ SetterComps(a, fl) ==
       pa |-> IF rc.pa = 0 THEN a.pa ELSE Null, q |-> IF rc.q = 0 THEN a.q ELSE Null,
       f |-> IF rc.f = 0 THEN a.f ELSE Null,
       br |-> h0 # Null /\ SBf(fl) /\ Bracketed(h0), slash |-> FALSE, st |-> "ok"]
+GrammarSound == GrammarSoundP(PR)
 NormPath(c) == [c EXCEPT !.pa = IF c.pa = Null THEN <<>> ELSE c.pa]
 (* is there a string that parses back to exactly these components?  (SetterLaw: by RoundTrip and
    Join being the only recomposition, that is the case iff Join(c) does) *)
 Representable(c, fl) == LET r == ParseF(Join(c), fl) IN IsRec(r) /\ Pub(r) = Pub(NormPath(c))
 (* why not: the classes of unrepresentable component sets *)
-Reason(c, fl) ==
-  IF Representable(c, fl) THEN "ok"
+ReasonR(c, fl, rep) ==
+  IF rep THEN "ok"
   ELSE IF c.x # Null /\ c.pa # Null /\ c.pa # <<>> /\ c.pa[1] # SLASH THEN "unix-relative-path"
   ELSE IF c.h # Null /\ c.pa # Null /\ c.pa # <<>> /\ c.pa[1] # SLASH THEN "authority-relative-path"
   ELSE IF c.h = Null /\ c.x = Null /\ (c.u # Null \/ c.p >= 0) THEN "userinfo-or-port-without-host"
@@ -379,20 +382,28 @@ Reason(c, fl) ==
 (* the setter corpus: unix sockets only with the flag, never together with a port *)
 SetterCase(tt, fl) == /\ Tok(tt, 3).k # "unixnc"
                       /\ (Tok(tt, 3).k = "unix" => UX(fl) /\ Tok(tt, 4).n = -1)
-SetterLaw ==
-  \A fl \in FlagSets : SetterCase(t, fl) =>
-     LET c == SetterComps(SetterArgs(t), fl) IN Reason(c, fl) # "other"
+Reason(c, fl) == ReasonR(c, fl, Representable(c, fl))
+(* per flag set: the setter-built components and why they are (not) representable *)
+SR == [fl \in FlagSets |-> IF SetterCase(t, fl)
+                            THEN LET c == SetterComps(SetterArgs(t), fl) IN [c |-> c, why |-> Reason(c, fl)]
+                            ELSE [why |-> "skip"]]
+SetterLawP(sr) == \A fl \in FlagSets : sr[fl].why # "other"
+SetterLaw == SetterLawP(SR)
 
 -----------------------------------------------------------------------------
 (* generation *)
 Out(r) == IF IsRec(r) THEN [st |-> "ok", c |-> Pub(r), slash |-> IF r.slash THEN 1 ELSE 0] ELSE [st |-> r.st, slash |-> 0]
-ParseRec == [i |-> B, fl |-> [n \in 1..8 |-> PubFlags(n - 1)], r |-> [n \in 1..8 |-> Out(ParseF(B, n - 1))]]
-SetOut(fl) == LET a == SetterArgs(t)
-                  c == SetterComps(a, fl)
-              IN IF SetterCase(t, fl)
-                 THEN [fl |-> PubFlags(fl), a |-> a, rc |-> SetterRc(a, fl), c |-> Pub(c), why |-> Reason(c, fl),
-                       rp |-> Pub(NormPath(c)), slash |-> IF c.x # Null /\ FirstOf(c.x, {SLASH}) # 0 THEN 1 ELSE 0]
-                 ELSE [fl |-> -1]
-SetRec == [n \in 1..8 |-> SetOut(n - 1)]
-Emit == PrintT(ToJson(IF What = "parse" THEN ParseRec ELSE SetRec))
+ParseRecP(pr) == [i |-> B, fl |-> [n \in 1..8 |-> PubFlags(n - 1)], r |-> [n \in 1..8 |-> Out(pr[n - 1])]]
+SetOutP(fl, sr) ==
+  IF sr[fl].why = "skip" THEN [fl |-> -1]
+  ELSE LET a == SetterArgs(t)
+           c == sr[fl].c
+       IN [fl |-> PubFlags(fl), a |-> a, rc |-> SetterRc(a, fl), c |-> Pub(c), why |-> sr[fl].why,
+           rp |-> Pub(NormPath(c)), slash |-> IF c.x # Null /\ FirstOf(c.x, {SLASH}) # 0 THEN 1 ELSE 0]
+SetRecP(sr) == [n \in 1..8 |-> SetOutP(n - 1, sr)]
+(* one invariant: the three laws and the emission share the parse results of the state *)
+(* (\E x \in {e} : ...) rather than LET: TLC evaluates e once and binds the value *)
+All == \E pr \in {PR} : \E sr \in {SR} :
+          /\ RoundTripP(pr) /\ GrammarSoundP(pr) /\ SetterLawP(sr)
+          /\ PrintT(ToJson([p |-> ParseRecP(pr), s |-> SetRecP(sr)]))
 =============================================================================
